@@ -5,7 +5,7 @@ package config
 // Contracts for govc (contract-based deductive verification; see /verif/DESIGN.md).
 // This file holds only comments and is compiled only with -tags verif.
 
-// C07 safety sweep: any value is admitted. Decode / decodeString are reflection-driven and not under contract.
+// C07 safety sweep: any value is admitted. Decode / decodeString (reflection-driven): see the second half of this file.
 // Termination of Normalize's recursion is NOT proved: it needs an acyclic value (a slice or map that contains itself
 // makes Normalize recurse until the stack is exhausted); values decoded from YAML / JSON text are trees.
 //@ assume-text config.Normalize / PrefixedBy: the value is acyclic (a tree, as every YAML / JSON decoder produces). A map or slice that contains itself can only be built as a Go value; on it the recursion does not terminate (stack exhaustion, not recoverable). Termination of the recursion is not proved
@@ -25,3 +25,51 @@ package config
 //@ func PrefixedBy
 //@   tags C07
 //@   ensures [C07.prefix.err] result1 != nil ==> result == input
+
+// ---- Decode and its mapstructure hook (C07: no configuration value makes them panic) ------------------------------
+// Model of reflect types and values: /verif/libspec/reflect_config.spec (idKind, idElem, idPtrTo, idImpl over type ids;
+// rtId of a reflect.Type; rvKind / rvValid / rvTypeId / rvIsNil / rvElem of a reflect.Value).
+//
+// decodeString is never called from the repository: it is handed to mapstructure as DecodeHookFuncType. Its preconditions
+// are therefore what mapstructure guarantees when it calls a hook (assume-text "THE HOOK CONTRACT" in the libspec), and
+// nothing else about the VALUE:
+//   [hook.args]   f, t, data are non-nil and f == reflect.TypeOf(data). Nothing says that Kind()==String means `string`,
+//                 nor that the pointer or anything behind it is non-nil (mapstructure does test Kind()==Ptr && IsNil()
+//                 before the hooks run; panic freedom is proved without that, the postcondition uses it as hypothesis).
+//   [pkgvar]      typeStringDecoder is the package variable initialised in the var block with
+//                 reflect.TypeOf((*StringDecoder)(nil)).Elem() and assigned nowhere else (no package invariants in the engine).
+//   [desttype]    about the DESTINATION type t, which the programmer chooses through the output struct, not the input:
+//                 a t that implements StringDecoder is a pointer type. The code does reflect.New(t.Elem()) for such a t:
+//                 a struct / interface t panics in Type.Elem ("reflect: Elem of invalid type"), a map / slice t with a
+//                 value-receiver DecodeString fails the unchecked assertion result.(StringDecoder) (demonstrated on the
+//                 real code: field types `type S struct{}` + `func (S) DecodeString`, `StringDecoder` itself, named map / slice).
+// Postcondition [C07.hook.usable]: what mapstructure needs back from a hook (it does not repeat its nil checks on the
+// hook's result and calls reflect.Value.Type on the zero Value otherwise, audit C07 1.1): an error, or a value that is
+// neither nil nor a nil pointer -- for every data that is itself neither nil nor a nil pointer (what mapstructure hands over).
+// DecodeString of the destination type is programmer-supplied code; it is called through the interface and not
+// constrained here.
+//@ assume-text config.decodeString: (StringDecoder).DecodeString implementations of destination types are programmer-supplied and assumed not to panic; a destination type that implements StringDecoder is a pointer type (precondition [desttype], a property of the output struct chosen by the programmer, not of the input)
+
+//@ func decodeString
+//@   tags C07
+//@   requires f != nil && t != nil && data != nil
+//@   requires rtId(f) == data.dyntype
+//@   requires typeStringDecoder != nil && rtId(typeStringDecoder) == idStringDecoder()
+//@   requires idImpl(rtId(t), idStringDecoder()) ==> idKind(rtId(t)) == 22
+//@   loop 0 invariant inner == v || (rvKind(v) == 20 && !rvIsNil(v) && inner == rvElem(v) && rvKind(inner) != 20)
+//@   loop 0 invariant rvValid(inner) <==> rvKind(inner) != 0
+//@   loop 0 decreases rvKind(inner) == 20 ? 1 : 0
+//@   ensures [C07.hook.usable] (result1 == nil && !nilOrNilPtr(data)) ==> !nilOrNilPtr(result)
+
+//@ func invalidError
+//@   tags C07
+//@   modifies nothing
+//@   ensures [C07.invalid.nil] (err == nil) <==> (result == nil)
+
+// Decode: builds a mapstructure decoder whose hook is decodeString ([C07.decode.hook]: the hook handed over IS the
+// verified function, so that the library assumption applies) and runs it. That mapstructure itself does not panic on any
+// input / output pair, given a hook that does not panic and hands back usable values, is an assumption about the library
+// (assume-text "mapstructure" of the libspec).
+//@ func Decode
+//@   tags C07
+//@   at before call NewDecoder#0 assert [C07.decode.hook] arg0 != nil && isfunc(arg0.DecodeHook.payload, "decodeString")
